@@ -11,6 +11,7 @@
 From Coq Require Import List Arith ZArith.
 Import ListNotations.
 From Yaqs Require Import Model.TdvpSweep Proofs.TdvpSweepP Model.JumpPipeline Proofs.JumpPipelineP Model.BugSweep Proofs.BugSweepP Model.SingleSite Proofs.SingleSiteP.
+From Yaqs Require LinAlg.Strang.
 
 Theorem C05_time_budget : forall ones, 2 <= length ones -> sane ones ->
   (forall j, j < length ones -> total_site j (fw 0 ones false) = 1%Z) /\
@@ -58,3 +59,21 @@ Proof. vm_compute. reflexivity. Qed.
 Example C05_example : fw 0 [false; true; false; false] false = [TPair 0; TSite 1 false; TSite 1 true; TBond 1; TPair 2]
   /\ sweep [false;false;false] [false;false;false] = [TPair 0; TSite 1 false; TPair 1; TPair 1; TSite 1 false; TPair 0].
 Proof. vm_compute. split; reflexivity. Qed.
+
+(* a sweep over any list of (non-commuting) local generators followed by its mirror image is the exponential of the doubled sum through
+   second order: the structure of a time step whose decisions are uniform (all one-site or all two-site updates) *)
+Theorem C05_mirrored_sweep_is_second_order :
+  forall (R : Type) (ring0 ring1 : R) (add mul sub : R -> R -> R) (opp : R -> R) (req : R -> R -> Prop)
+         (Rops : @Ncring.Ring_ops R ring0 ring1 add mul sub opp req), @Ncring.Ring R ring0 ring1 add mul sub opp req Rops ->
+  forall l : list R, Strang.teq (Strang.tmul (Strang.tprod l) (Strang.tprod (rev l))) (Strang.texp (Strang.dsum l)).
+Proof. exact @Strang.palindrome. Qed.
+Print Assumptions C05_mirrored_sweep_is_second_order.
+
+(* a half step, a full step, a half step is exact through second order in the step (LinAlg/Strang.v: series truncated after dt^2 over
+   any ring, the last entry of a triple being twice the second-order coefficient; texp X = (1, X, X*X)) *)
+Theorem C05_symmetric_splitting_is_second_order :
+  forall (R : Type) (ring0 ring1 : R) (add mul sub : R -> R -> R) (opp : R -> R) (req : R -> R -> Prop)
+         (Rops : @Ncring.Ring_ops R ring0 ring1 add mul sub opp req), @Ncring.Ring R ring0 ring1 add mul sub opp req Rops ->
+  forall C B : R, Strang.teq (Strang.tmul (Strang.tmul (Strang.texp C) (Strang.texp B)) (Strang.texp C)) (Strang.texp (add (add C C) B)).
+Proof. exact @Strang.strang. Qed.
+Print Assumptions C05_symmetric_splitting_is_second_order.
